@@ -47,6 +47,14 @@ CLAIMED.update({
             TRANS_NOTE, 'DESIGN.md §3 C05'),
 })
 
+CLAIMED.update({
+    'C03': ('model_checking',
+            'gr1._make_init run on rigid-table predicate families and its exported result compared by z3 with the documented formula per qinit form; gr1.is_realizable per predicate triple against z3 validity of the documented quantified formula (exhaustive over two Boolean variables, seeded over integers); constructors run on seeded games for all forms and modes',
+            'Bounded solver check: the synthesized initial condition for all (EnvInit, SysInit, Win) triples of a shape at once; the Boolean verdict per instance with the solver deciding the quantified formula over the bits that refine the variables; construction succeeds exactly when verdict and non-empty region say so.',
+            'Trusted: z3 (QBF over <= 6 bits), dd node accessors. Win is an arbitrary predicate here; exactness of the region is C01/C04. Bounds: two variables (bool/bool, 0..2/-1..1, -2..-1/bool), one memory variable.',
+            'DESIGN.md §3 C03'),
+})
+
 NOT_APPLICABLE = {
     'C16': 'Parser/precedence/round-trip: PLY regex lexer + table-driven LALR driver over token sequences; no arithmetic or bit-level state for a solver to range over. CrossHair on lexyacc.Parser.parse with symbolic strings (len <= 3) answers "Unable to meet precondition" after 90 s. See DESIGN.md §5.',
 }
